@@ -11,7 +11,7 @@ props = [json.loads(l)['id'] for l in open(os.path.join(HERE, 'properties.jsonl'
 checks = []
 for pid in props:
     m = meta['checks'].get(pid)
-    if not m:
+    if not m or pid not in meta.get('integrated', []):
         continue
     if not os.path.exists(os.path.join(HERE, 'harness', 'props', pid.lower() + '.py')):
         continue
